@@ -90,4 +90,16 @@ theorem lchHue_def {α : Type} [ScT α] (d : Draws) :
 /-- `RandomCommand` emits exactly `N` colours (a loop of `N` `show_color` calls). -/
 theorem random_count {β : Type} (n : Nat) (gen : Nat → β) : ((List.range n).map gen).length = n := by simp
 
+
+/-- The draw that lands on gray level `k`: `⌈k/255 · 2^53⌉` (capped at `2^53 − 1`), in the upper
+53 bits of a `u64`. -/
+def grayWitness (k : Nat) : Nat := min ((k * 9007199254740992 + 254) / 255) 9007199254740991 * 2048
+
+/-- `gray`: every gray level is reachable, on IEEE floats — the draw `grayWitness k` yields the
+colour `(k, k, k)`, for each of the 256 levels (kernel-evaluated through the Float model). -/
+theorem gray_every_level_reachable : ∀ k : Fin 256,
+    (let c := toRgba8 (randGray (α := Float) { rest := [grayWitness k.val] }).1
+     (c.r.toNat, c.g.toNat, c.b.toNat)) = (k.val, k.val, k.val) := by
+  decide +kernel
+
 end Pastel.C16
